@@ -7,6 +7,7 @@ import (
 	"crypto"
 	"crypto/ecdsa"
 	"crypto/ed25519"
+	"crypto/elliptic"
 	"crypto/rand"
 	"crypto/rsa"
 	"crypto/sha256"
@@ -15,8 +16,10 @@ import (
 	"hash"
 	"math/big"
 
+	"verif/engine/choice"
 	"verif/fixtures"
 	"verif/mcbor"
+	"verif/refmodel"
 )
 
 type sign1View struct {
@@ -206,4 +209,31 @@ func unwrapBstr(raw []byte) []byte {
 		return nil
 	}
 	return n.B
+}
+
+// ProbeToken returns one genuine ES256 P2 token (development aid).
+func ProbeToken() []byte { return ProbeTokenAlg("ES256") }
+
+// ProbeTokenAlg returns one genuine P2 token signed under alg.
+func ProbeTokenAlg(alg string) []byte {
+	k := fixtures.Get(alg, 1)
+	prot := protHeader(alg)
+	pl := mcbor.Encode(wireTree(choiceZero(2), true))
+	return envelope(prot, mcbor.M(), pl, rawSign(k, alg, prot, pl))
+}
+
+func choiceZero(p int) *refmodel.Claims {
+	var a *refmodel.Claims
+	choice.RunOne(func(c *choice.Ctx) { a = newCoarseGen(p, 1).gen(c, "") }, nil, nil)
+	return a
+}
+
+// degenerateKeys: public-key values a caller can hand to Verify that carry no usable key material.
+func degenerateKeys() []crypto.PublicKey {
+	return []crypto.PublicKey{
+		(*ecdsa.PublicKey)(nil), &ecdsa.PublicKey{}, &ecdsa.PublicKey{Curve: elliptic.P256()},
+		&ecdsa.PublicKey{Curve: elliptic.P256(), X: big.NewInt(1), Y: big.NewInt(1)},
+		(*rsa.PublicKey)(nil), &rsa.PublicKey{}, &rsa.PublicKey{E: 65537}, &rsa.PublicKey{N: big.NewInt(15), E: 3},
+		ed25519.PublicKey(nil), ed25519.PublicKey{1, 2}, "not a key", 7,
+	}
 }
